@@ -62,7 +62,7 @@ def gadget_circuit(rng, kinds=None, size_hint=0):
         if k == "arith":
             L.append(f"gadd 0 2 3 0 0 5 - $0 $1 0 0"); nres += 1
         elif k == "range":
-            L.append(f"rbits {rng.choice([20, 21, 32, 64, 7])} $0")
+            L.append(f"rbits {rng.choice([20, 21, 32, 64, 254])} $0")
         elif k == "logic":
             L.append(f"{rng.choice(['land','lxor'])} {rng.choice([1, 4, 10, 16])} $0 $1"); nres += 1
         elif k == "trunc":
